@@ -183,9 +183,10 @@ class AbstractDateTime(AnyAtomicType):
 
         if hour == 24 and minute == second == microsecond == 0:
             hour = 0
-            if year == 9999 and month == 12 and day == 31:
+            if month == 12 and day == 31:
+                # the first instant of the following year (there is no year 0 in this numbering)
                 delta = _ZERO_DELTA
-                year = 10000
+                year = year + 1 if year != -1 else 1
                 month = 1
                 day = 1
             else:
